@@ -52,11 +52,24 @@ class IrqMonitor:
             return
         py = self.model == "py"
         executed = a.get("op_eff", a["opcode"])
+        if executed == 0xFF and a["power"] == "running":
+            # RESET: control restarts at the entry vector; every frame of the old stack is abandoned
+            self.frames.clear()
+            self.eligible_run = 0
+            self.off_mode = False
+            self.stats["resets"] = self.stats.get("resets", 0) + 1
+            # (no return: a request may be delivered at the end of this very step)
         was_low_power = a["power"] != "running"
         V = self.V
         entry = False
         reti_then_entry = False
-        if b["S"] == ((a["S"] - 5) & 0xFFFFF) and b["pc"] in ((V, V + 1) if py else (V,)) and executed != OP_IR:
+        s_before = a["S"]
+        if executed == 0x0F and not was_low_power and b["pc"] in ((V, V + 1) if py else (V,)) and \
+                b["irq_total"] == a["irq_total"] + 1:
+            # the executed instruction itself loaded S (MV S,imm20, e.g. first instruction after RESET) and a request was
+            # delivered at the end of the same step: the frame sits below the NEW stack pointer
+            s_before = (b["S"] + 5) & 0xFFFFF
+        if b["S"] == ((s_before - 5) & 0xFFFFF) and b["pc"] in ((V, V + 1) if py else (V,)) and executed != OP_IR:
             entry = True
         elif (not py and executed == OP_RETI and not was_low_power and b["pc"] == V and b["S"] == a["S"] and self.frames):
             entry = True
@@ -92,6 +105,8 @@ class IrqMonitor:
                         self._v("in_interrupt_flag_survives_reti", pc=b["pc"])
                     # returning from one source must not retire a DIFFERENT, still pending request
                     src_mask = {"MTI": 1, "STI": 2, "KEY": 4, "ONK": 8}.get(top.get("source") or "", None)
+                    if top.get("sw"):
+                        src_mask = 0        # a software interrupt delivered no hardware source: nothing to retire
                     cleared = a["isr"] & ~b["isr"] & 0x0F
                     if src_mask is not None and cleared & ~src_mask:
                         self._v("reti_clears_other_status_bits", delivered=top.get("source"), isr_before=a["isr"],
@@ -122,6 +137,8 @@ class IrqMonitor:
             else:
                 s = self.succ(a["pc"])
                 want_pcs = {x & 0xFFFFF for x in s} if s else None
+            if executed == 0xFF:
+                want_pcs = None      # RESET continues at the reset entry, which the static successor table does not know
             if want_pcs is not None and (p_pc & 0xFFFFF) not in want_pcs:
                 self._v("pushed_resume_pc_wrong", pushed=p_pc, want=sorted(want_pcs), at=a["pc"])
             if b["imr"] != (p_imr & 0x7F):
@@ -130,7 +147,7 @@ class IrqMonitor:
                 self._v("entry_without_in_interrupt_flag", pc=b["pc"])
             if b["irq_total"] != a["irq_total"] + 1:
                 self._v("entry_without_counter", before=a["irq_total"], after=b["irq_total"])
-            self.frames.append({"pc": p_pc, "f": p_f & 3, "imr": p_imr, "S": mid["S"] if reti_then_entry else a["S"],
+            self.frames.append({"pc": p_pc, "f": p_f & 3, "imr": p_imr, "S": mid["S"] if reti_then_entry else s_before,
                                 "source": b.get("source")})
             self.eligible_run = 0
         else:
@@ -178,6 +195,15 @@ class IrqMonitor:
                 self._v("halted_cpu_changed_state", a={k: a[k] for k in ("pc", "S", "BA")}, b={k: b[k] for k in ("pc", "S", "BA")})
             if a["isr"] != 0 and (self.kb_irq or (a["isr"] & ~0x04)):
                 self._v("stays_halted_with_status_pending", isr=a["isr"], pc=a["pc"])
+        # ---------------- a timer that fired leaves its status bit (C13 clause at machine level) -----------------
+        # a target that moved forward in this step means the timer fired in this step: its status bit must be visible at the
+        # boundary unless the executed instruction itself may have written ISR (AND/OR/MV to an internal-memory byte)
+        if a.get("timer_enabled") and executed not in (0x70, 0x71, 0x72, 0x73, 0x78, 0x79, 0x7A, 0x7B, 0xCC, 0xCD, 0xA0, 0xA1,
+                                                       0xC8, 0xC0, 0xFF):
+            for bit, key in ((1, "next_mti"), (2, "next_sti")):
+                if b[key] > a[key] and not (b["isr"] & bit):
+                    self._v("timer_fired_without_status_bit", timer=key, before=a[key], after=b[key], isr=b["isr"],
+                            executed=executed, in_handler=bool(self.frames))
         # ---------------- KEYI edge (machine level, C14 clause) ---------------------------------------------
         if not py and (b["isr"] & 4) and not (a["isr"] & 4) and not (self.injected_isr & 4):
             if not self.kb_irq or not (a.get("fifo") or b.get("fifo")):
